@@ -121,6 +121,7 @@ Section ExprInd.
   Hypothesis Hlist : forall l, Q l -> P (EList l).
   Hypothesis Hplist : forall l, Q l -> P (EPList l).
   Hypothesis Hobj : forall f pid x, P x -> P (EObj f pid x).
+  Hypothesis Hmenu : forall pid it mn, P it -> P mn -> P (EMenu pid it mn).
   Hypothesis Hnil : Q [].
   Hypothesis Hcons : forall x l, P x -> Q l -> Q (x :: l).
   Fixpoint expr_ind2 (e : expr) : P e :=
@@ -133,6 +134,7 @@ Section ExprInd.
     | ECall f l => Hcall f l (go l) | ELCall f l => Hlcall f l (go l)
     | EList l => Hlist l (go l) | EPList l => Hplist l (go l)
     | EObj f pid x => Hobj f pid x (expr_ind2 x)
+    | EMenu pid it mn => Hmenu pid it mn (expr_ind2 it) (expr_ind2 mn)
     end.
 End ExprInd.
 
@@ -604,6 +606,39 @@ Proof.
   exists r2. cbn [Nat.add]. erewrite run_ops_step; [| subst a2 a1; lia | exact Hs]. f_equal. subst a2 a1. lia.
 Qed.
 
+(* ---- the <property> of menuItem <item> of menu <menu> ---- *)
+Lemma exec_menu en pid it mn : exec_spec en it -> exec_spec en mn -> wf_e en (EMenu pid it mn) -> exec_spec en (EMenu pid it mn).
+Proof.
+  intros IHi IHm (Hpid & Hi & Hm) d off len a fuel r m Hag Hc Hoff Hlen.
+  assert (Hsm : (length MENUITEM_PROPERTIES < 512)%nat) by (vm_compute; lia).
+  cbn [compile_e ninstr] in *. rewrite !zlen_app in *. change (zlen [b 92; b 3]) with 2 in *.
+  apply code_at_app in Hc. destruct Hc as [Hci Hc]. apply code_at_app in Hc. destruct Hc as [Hcm Hc].
+  apply code_at_app in Hc. destruct Hc as [Hcn Hco].
+  pose proof (zlen_nonneg (compile_e it)). pose proof (zlen_nonneg (compile_e mn)). pose proof (zlen_nonneg (compile_int (Z.of_nat pid))).
+  replace (ninstr it + (ninstr mn + 2) + fuel)%nat with (ninstr it + (ninstr mn + (1 + (1 + fuel))))%nat by lia.
+  destruct (IHi d off len a (ninstr mn + (1 + (1 + fuel)))%nat r m Hag Hci ltac:(lia) ltac:(lia)) as [r1 E1]. rewrite E1.
+  set (m1 := after_e en a it m). set (pm := a + zlen (compile_e it)) in *.
+  pose proof (agrees_after_e en a it m Hag) as Hag1. fold m1 in Hag1.
+  destruct (IHm d off len pm (1 + (1 + fuel))%nat r1 m1 Hag1 Hcm ltac:(subst pm; lia) ltac:(subst pm; lia)) as [r2 E2]. rewrite E2.
+  set (m2 := after_e en pm mn m1). set (pi := pm + zlen (compile_e mn)) in *.
+  pose proof (agrees_after_e en pm mn m1 Hag1) as Hag2. fold m2 in Hag2.
+  assert (Hwi : wf_e en (EInt (Z.of_nat pid))) by (cbn [wf_e]; lia).
+  destruct (exec_int en (Z.of_nat pid) Hwi d off len pi (1 + fuel)%nat r2 m2 Hag2 Hcn ltac:(subst pi pm; lia) ltac:(subst pi pm; cbn [compile_e]; lia)) as [r3 E3].
+  cbn [ninstr compile_e] in E3. rewrite E3.
+  set (m3 := after_e en pi (EInt (Z.of_nat pid)) m2). set (po := pi + zlen (compile_int (Z.of_nat pid))) in *.
+  assert (Hs : step d po r3 m3 = Ok (po + 2, r3, after_e en a (EMenu pid it mn) m)).
+  { eapply step_bi with (proc0 := "SoundPropertiesOpcode") (attr0 := "") (proc := "MenuitemPropertiesOpcode") (attr := "") (oc := OMenuitemProps);
+      [exact Hco | reflexivity | vm_compute; reflexivity | reflexivity |].
+    cbn [process]. unfold pop. subst m3. rewrite after_e_stack. cbn [bind reify_e]. unfold int_name. cbn [name_of].
+    rewrite int_of_str_small by lia. cbn [of_option bind]. unfold with_stack at 1. cbn [m_stack].
+    subst m2. rewrite after_e_stack. cbn [bind]. unfold with_stack at 1. cbn [m_stack].
+    subst m1. rewrite after_e_stack. cbn [bind]. rewrite nth_name_ok by exact Hpid. cbn [bind]. f_equal.
+    apply mstate_eq; [ | | unfold push, with_stack; cbn [m_fn]; rewrite !after_e_globals; cbn [globals_e];
+                           rewrite add_globals_app; reflexivity | .. ];
+      subst po pi pm; destruct m as [st [? ? ? ? ? ? ?] cx]; reflexivity. }
+  exists r3. cbn [Nat.add]. erewrite run_ops_step; [| subst po pi pm; lia | exact Hs]. f_equal. subst po pi pm. lia.
+Qed.
+
 Lemma wf_lexpr_args en k l : wf_e en (lexpr k l) -> wf_args en l.
 Proof. destruct k; cbn [lexpr wf_e]; rewrite wf_args_eq; tauto. Qed.
 
@@ -620,6 +655,7 @@ Proof.
   - intros l IHl Hwf. apply (exec_lexpr en KListLit l); [apply IHl; apply (wf_lexpr_args en KListLit); exact Hwf | exact Hwf].
   - intros l IHl Hwf. apply (exec_lexpr en KPListLit l); [apply IHl; apply (wf_lexpr_args en KPListLit); exact Hwf | exact Hwf].
   - intros f pid x IHx Hwf. apply exec_obj; [apply IHx; apply Hwf | exact Hwf].
+  - intros pid it mn IHi IHm Hwf. apply exec_menu; [apply IHi; apply Hwf | apply IHm; apply Hwf | exact Hwf].
   - intros _. apply exec_args_nil.
   - intros x l IHx IHl [Hx Hl]. apply exec_args_cons; auto.
 Qed.
